@@ -2,6 +2,7 @@
   Dispatch of protocol operations to model functions (driver side of the correspondence).
 -/
 import Depccg.Wire
+import Depccg.Ja
 
 namespace Depccg
 namespace Ops
@@ -38,13 +39,113 @@ def catOps (op : String) (ts : List String) : Option String :=
   | "nargs" => some <| run1 pCat ts fun c => toString c.nargs
   | _ => none
 
-def dispatch (line : String) : String :=
+/-- driver state: named seen-rule sets and unary tables -/
+structure State where
+  seen : List (String × List (Cat × Cat)) := []
+  unary : List (String × List (Cat × List Cat)) := []
+
+def encRes (r : RuleRes) : String :=
+  encCat r.cat ++ " " ++ encStr r.opString ++ " " ++ encStr r.opSymbol ++ " " ++ bool01 r.headLeft
+
+def encResList (rs : List RuleRes) : String :=
+  toString rs.length ++ (if rs.isEmpty then "" else " ; " ++ " ; ".intercalate (rs.map encRes))
+
+def pPair : P (Cat × Cat) := fun ts => do
+  let (a, ts) ← pCat ts
+  let (b, ts) ← pCat ts
+  pure ((a, b), ts)
+
+def pUnaryRow : P (Cat × List Cat) := fun ts => do
+  let (a, ts) ← pCat ts
+  let (bs, ts) ← pList pCat ts
+  pure ((a, bs), ts)
+
+def lookupNamed {α} (tbl : List (String × α)) (n : String) : Option α :=
+  (tbl.find? fun p => p.1 == n).map (·.2)
+
+def uniOut (px py x y : Cat) : String :=
+  match Unify.unify px py x y with
+  | .error e => "err " ++ e.name
+  | .ok none => "fail"
+  | .ok (some σ) =>
+    "ok" ++ String.join (σ.cats.map fun (k, _) =>
+      " | " ++ encStr k ++ " " ++ (match σ.get k with | .ok c => encCat c | .error e => "err " ++ e.name))
+
+/-- the object protocol: `uniobj px py x y x2 y2 key` : first call, lookup, second call, lookup -/
+def uniObjOut (px py x y x2 y2 : Cat) (key : Str) : String :=
+  let o0 := Unify.Obj.fresh px py
+  let g0 := o0.get key
+  let (r1, o1) := o0.call x y
+  let g1 := o1.get key
+  let (r2, o2) := o1.call x2 y2
+  let g2 := o2.get key
+  " ; ".intercalate [encExcept encCat g0, encExcept bool01 r1, encExcept encCat g1, encExcept bool01 r2,
+    encExcept encCat g2]
+
+def grammarOps (st : State) (op : String) (ts : List String) : Option (State × String) :=
+  match op with
+  | "set_seen" =>
+    match ts with
+    | n :: rest =>
+      match pList pPair rest with
+      | some (ps, []) => some ({ st with seen := (n, ps) :: st.seen.filter (·.1 != n) }, "ok")
+      | _ => some (st, bad)
+    | _ => some (st, bad)
+  | "set_unary" =>
+    match ts with
+    | n :: rest =>
+      match pList pUnaryRow rest with
+      | some (rows, []) => some ({ st with unary := (n, rows) :: st.unary.filter (·.1 != n) }, "ok")
+      | _ => some (st, bad)
+    | _ => some (st, bad)
+  | "uni" =>
+    some (st, match pCat ts with
+      | some (px, ts) => match pCat ts with
+        | some (py, ts) => run2 pCat pCat ts fun x y => uniOut px py x y
+        | none => bad
+      | none => bad)
+  | "uniobj" =>
+    some (st, match (do
+        let (px, ts) ← pCat ts; let (py, ts) ← pCat ts
+        let (x, ts) ← pCat ts; let (y, ts) ← pCat ts
+        let (x2, ts) ← pCat ts; let (y2, ts) ← pCat ts
+        let (k, ts) ← pStr ts
+        if ts.isEmpty then pure (uniObjOut px py x y x2 y2 k) else none) with
+      | some r => r
+      | none => bad)
+  | "en_bin" | "ja_bin" =>
+    match ts with
+    | n :: rest =>
+      let seen : Option (Option (List (Cat × Cat))) :=
+        if n == "-" then some none else (lookupNamed st.seen n).map some
+      match seen with
+      | none => some (st, bad)
+      | some sn =>
+        some (st, run2 pCat pCat rest fun x y =>
+          encExcept encResList (if op == "en_bin" then En.applyBinary sn x y else Ja.applyBinary sn x y))
+    | _ => some (st, bad)
+  | "en_un" | "ja_un" =>
+    match ts with
+    | n :: rest =>
+      match lookupNamed st.unary n with
+      | none => some (st, bad)
+      | some tbl =>
+        some (st, run1 pCat rest fun x =>
+          if op == "en_un" then "ok " ++ encResList (En.applyUnary tbl x)
+          else encExcept encResList (Ja.applyUnary tbl x))
+    | _ => some (st, bad)
+  | _ => none
+
+def dispatch (st : State) (line : String) : State × String :=
   match line.splitOn " " with
   | op :: ts =>
     match catOps op ts with
-    | some r => r
-    | none => bad
-  | [] => bad
+    | some r => (st, r)
+    | none =>
+      match grammarOps st op ts with
+      | some r => r
+      | none => (st, bad)
+  | [] => (st, bad)
 
 end Ops
 end Depccg
